@@ -504,8 +504,18 @@ fn non_advancing(s: &Result<TrackPlaybackState, i128>) -> bool {
 	matches!(s, Ok(TrackPlaybackState::Paused) | Ok(TrackPlaybackState::WaitingToResume))
 }
 
+/// a fade-in started by `resume(tween)`: the tween's own delay and duration, the number of frames after which it
+/// has to be over, the number of frames that have to be silent first, the frames rendered since
+struct FadeIn {
+	d_ns: u64,
+	dur_ns: u64,
+	need: usize,
+	silent: usize,
+	elapsed: usize,
+}
+
 /// property monitors on the implementation's trace
-fn monitors(s: &mut Session, desc: &str, sc: &Scenario, tr: &Trace, pure: bool) {
+fn monitors(s: &mut Session, desc: &str, sc: &Scenario, tr: &Trace, pure: bool, line: bool) {
 	if let Some(c) = tr.panicked {
 		s.fail(desc.to_string(), format!("panic (code {c}) while driving the manager"), None);
 		return;
@@ -519,8 +529,32 @@ fn monitors(s: &mut Session, desc: &str, sc: &Scenario, tr: &Trace, pure: bool) 
 	// frozen-through-callback flags of the previous callback, to compare positions one callback later
 	let mut frozen_prev: BTreeMap<usize, bool> = BTreeMap::new();
 	let mut removed_prev: BTreeMap<usize, bool> = BTreeMap::new();
+	// `resume(tween)` book-keeping: tracks that ever received a pause or a resume_at with a start time (= may not be advancing); per track the fade-in that has to be over
+	// after `need` frames (frames rendered since the resume was picked up)
+	let mut ever_paused: BTreeMap<usize, bool> = BTreeMap::new();
+	let mut fade_in: BTreeMap<usize, FadeIn> = BTreeMap::new();
 	for (k, cb) in sc.cbs.iter().enumerate() {
 		let o = &tr.per_cb[k];
+		let mut last_resume: BTreeMap<usize, (Start, Tw)> = BTreeMap::new();
+		let mut paused_now: BTreeMap<usize, bool> = BTreeMap::new();
+		for op in &cb.ops {
+			match op {
+				Op::Pause { tr, .. } => {
+					ever_paused.insert(*tr, true);
+					paused_now.insert(*tr, true);
+					fade_in.remove(tr);
+				}
+				Op::Resume { tr, st, tw } => {
+					// resume_at with a start time parks the track in WaitingToResume, which does not advance either
+					if *st != Start::Imm {
+						ever_paused.insert(*tr, true);
+					}
+					last_resume.insert(*tr, (st.clone(), tw.clone()));
+					fade_in.remove(tr);
+				}
+				_ => {}
+			}
+		}
 		for n in mi.nodes.values_mut() {
 			n.cmd_this_cb = false;
 		}
@@ -554,6 +588,83 @@ fn monitors(s: &mut Session, desc: &str, sc: &Scenario, tr: &Trace, pure: bool) 
 		for (id, (st, _, _)) in &o.tracks {
 			if let Err(c) = st {
 				s.fail(desc.to_string(), format!("callback {k}: TrackHandle::state() of track {id} panicked (code {c})"), None);
+			}
+		}
+		// --- resume(tween) resumes IMMEDIATELY, whatever start time the fade-in tween carries: the commands are read at
+		//     this callback's start (pause first, then resume), so after this callback the handle reports Resuming, or
+		//     Playing once the fade-in is over -- never Paused / WaitingToResume (that is `resume_at` with a start time)
+		for (id, (st, tw)) in &last_resume {
+			if *st != Start::Imm {
+				continue;
+			}
+			if let Some((Ok(got), _, _)) = o.tracks.get(id) {
+				if !matches!(got, TrackPlaybackState::Resuming | TrackPlaybackState::Playing) {
+					s.fail(
+						desc.to_string(),
+						format!("callback {k}: track {id} was resumed with resume(tween) (= immediately; tween start {:?}, duration {} ns) before this callback, yet its handle reports {got:?} after it: the resume did not happen at once", tw.start, tw.dur_ns),
+						None,
+					);
+				}
+				let d_ns = match tw.start {
+					Start::Imm => Some(0),
+					Start::Del(ns) => Some(ns),
+					Start::Clk { .. } => None,
+				};
+				if let Some(d_ns) = d_ns {
+					// the tween's own delay is counted once: d + D, plus the update that notices the end of the delay, the
+					// overshoot of the last update and the nanosecond truncation of the count-down (one update each)
+					let need = ((d_ns + tw.dur_ns + 976_561) / 976_562) as usize + 3 * sc.ibs + 2;
+					let silent = if paused_now.get(id).is_none() && prev.map(|p| matches!(p.tracks.get(id), Some((Ok(TrackPlaybackState::Paused), _, _)))).unwrap_or(false) { (d_ns / 976_563) as usize } else { 0 };
+					fade_in.insert(*id, FadeIn { d_ns, dur_ns: tw.dur_ns, need, silent, elapsed: 0 });
+				}
+			}
+		}
+		for (id, fi) in fade_in.iter_mut() {
+			let before = fi.elapsed;
+			fi.elapsed += cb.frames;
+			let anc_paused = mi.ancestors_and_self(*id).iter().skip(1).any(|a| ever_paused.get(a).copied().unwrap_or(false));
+			if anc_paused {
+				continue;
+			}
+			// the fade keeps its old value (silence: the track was Paused) until the tween's start time
+			if line && before < fi.silent {
+				let upto = (fi.silent - before).min(o.out.len());
+				if o.out[..upto].iter().any(|x| x.to_bits() != 0) {
+					s.fail(desc.to_string(), format!("callback {k}: track {id} was Paused and resumed with a fade-in tween delayed by {} ns, yet the output is not silent during the first {} frames after the resume: {:?}", fi.d_ns, fi.silent, o.out), None);
+				}
+			}
+			if fi.elapsed >= fi.need {
+				if let Some((Ok(got), _, _)) = o.tracks.get(id) {
+					if *got != TrackPlaybackState::Playing {
+						s.fail(
+							desc.to_string(),
+							format!("callback {k}: track {id} was resumed with resume(Tween {{ start_time: Delayed({} ns), duration: {} ns }}) {} frames ago (delay + duration + 3 updates = {} frames), yet it is still {got:?}: the fade-in did not start when its own delay was over", fi.d_ns, fi.dur_ns, fi.elapsed, fi.need),
+							None,
+						);
+					}
+				}
+			}
+		}
+		// --- one sound, no effects, unit volumes (the line family): while every track is Playing and nothing was asked,
+		//     every output frame is a source frame, bit for bit, and consecutive frames are consecutive source frames
+		if line && cb.ops.is_empty() && !o.tracks.is_empty() {
+			let all_playing = |x: &CbObs| x.tracks.values().all(|t| matches!(t.0, Ok(TrackPlaybackState::Playing)));
+			if prev.map(|p| all_playing(p) && p.tracks.len() == o.tracks.len()).unwrap_or(false) && all_playing(o) {
+				let mut last: Option<i64> = None;
+				for x in &o.out {
+					if x.to_bits() == 0 {
+						last = None;
+						continue;
+					}
+					let m = (*x as f64) * 1048576.0;
+					let idx = m as i64 - 256 - 1;
+					let exact = m.fract() == 0.0 && idx >= 0 && idx < 255 && frame_code(0, idx as usize).to_bits() == x.to_bits();
+					if !exact || last.map(|l| idx != l + 1).unwrap_or(false) {
+						s.fail(desc.to_string(), format!("callback {k}: every track is Playing (fades over), yet the output {:?} is not the run of source frames of the sound", o.out), None);
+						break;
+					}
+					last = Some(idx);
+				}
 			}
 		}
 		if !blind {
@@ -763,7 +874,7 @@ fn gen_scenario(r: &mut Rng, pure: bool) -> Scenario {
 				}
 				8 | 9 | 10 => ops.push(Op::Pause { tr, tw: if pure { zero_tw() } else { gen_tw(r, true) } }),
 				11 | 12 => ops.push(Op::Resume { tr, st: Start::Imm, tw: if pure { zero_tw() } else { gen_tw(r, false) } }),
-				13 | 14 => ops.push(Op::Resume { tr, st: if pure { r.pick(&[Start::Del(FRAME_NS_X2), Start::Del(3 * FRAME_NS_X2), Start::Clk { clock: 0, ticks: 0, fr: 0.0 }]).clone() } else { gen_start(r) }, tw: if pure { zero_tw() } else { gen_tw(r, false) } }),
+				13 | 14 => ops.push(Op::Resume { tr, st: if pure { r.pick(&[Start::Del(FRAME_NS_X2), Start::Del(3 * FRAME_NS_X2), Start::Clk { clock: 0, ticks: 0, fr: 0.0 }]).clone() } else { gen_start(r) }, tw: if pure { zero_tw() } else { gen_tw(r, true) } }),
 				15 if !pure => ops.push(Op::Volume { tr, db: *r.pick(&[0.0f32, -6.0, -12.0, -60.0, 3.0]), tw: gen_tw(r, true) }),
 				16 | 17 if !pure || r.chance(1, 3) => {
 					g.tracks.get_mut(&tr).unwrap().1 = false;
@@ -796,14 +907,153 @@ fn gen_scenario(r: &mut Rng, pure: bool) -> Scenario {
 	Scenario { ibs, cbs }
 }
 
+fn frames_ns(f: u64) -> u64 {
+	// f frames of 1/1024 s in ns, rounded down (odd counts are not whole nanoseconds)
+	f * FRAME_NS_X2 / 2
+}
+/// the line family: a chain of 1-3 tracks (plain / spatial), ONE sound on the deepest, no effects, no volume changes;
+/// one node is paused (fade-out tween with an immediate / delayed / clock start), and some callbacks later resumed with
+/// `resume(tween)` whose fade-in tween carries its own start time (delayed by more than the monitor's slack, short
+/// delays, clock times, immediate), or now and then with `resume_at`; then enough callbacks for the fade-in to end
+fn gen_line(r: &mut Rng) -> Scenario {
+	let ibs = *r.pick(&[1usize, 2, 4]);
+	let depth = r.range(1, 3) as usize;
+	let target = r.below(depth as u64) as usize;
+	let mut cbs = vec![];
+	let mut ops = vec![Op::AddTop { id: 0, persist: false, fx: false, spatial: r.chance(1, 3) }];
+	for id in 1..depth {
+		ops.push(Op::AddSub { parent: id - 1, id, persist: false, fx: false, spatial: r.chance(1, 3) });
+	}
+	ops.push(Op::Play { tr: depth - 1, sid: 0, n: 250, start: 0, st: Start::Imm });
+	if r.chance(3, 4) {
+		ops.push(Op::ClockStart(0));
+	}
+	if r.chance(1, 4) {
+		ops.push(Op::ClockStart(1));
+	}
+	cbs.push(Cb { ops, frames: *r.pick(&[2usize, 3, 4]) });
+	if r.chance(1, 2) {
+		cbs.push(Cb { ops: vec![], frames: *r.pick(&[1usize, 2, 3, 4]) });
+	}
+	let clk = |r: &mut Rng| Start::Clk { clock: r.below(2) as usize, ticks: r.below(3), fr: *r.pick(&[0.0, 0.25, 0.5]) };
+	let ptw = Tw {
+		start: match r.below(6) {
+			0 => Start::Del(frames_ns(r.below(4) + 1) + r.below(2) * 500),
+			1 => clk(r),
+			_ => Start::Imm,
+		},
+		dur_ns: match r.below(4) {
+			0 | 1 => 0,
+			2 => frames_ns(r.below(4) + 1),
+			_ => r.below(4_000_000) + 1,
+		},
+		easing: gen_easing(r),
+	};
+	cbs.push(Cb { ops: vec![Op::Pause { tr: target, tw: ptw }], frames: *r.pick(&[2usize, 3, 4, 5]) });
+	for _ in 0..r.range(1, 4) {
+		cbs.push(Cb { ops: vec![], frames: *r.pick(&[2usize, 3, 4, 5]) });
+	}
+	let (rstart, d_frames) = match r.below(8) {
+		0 => (Start::Imm, 0),
+		1 => {
+			let f = r.below(3) + 1;
+			(Start::Del(frames_ns(f) + r.below(2) * 500), f)
+		}
+		2 | 3 => (clk(r), 0),
+		_ => {
+			let f = 3 * ibs as u64 + 3 + r.below(8);
+			(Start::Del(frames_ns(f) + r.below(2) * 500), f)
+		}
+	};
+	let dur_frames = r.below(7);
+	let rtw = Tw { start: rstart, dur_ns: if r.chance(1, 4) { r.below(5_000_000) } else { frames_ns(dur_frames) }, easing: gen_easing(r) };
+	let st = if r.chance(1, 6) { gen_start(r) } else { Start::Imm };
+	cbs.push(Cb { ops: vec![Op::Resume { tr: target, st, tw: rtw }], frames: *r.pick(&[2usize, 3, 4, 5]) });
+	let mut left = (d_frames + 6 + 3 * ibs as u64 + 2 + 4) as i64;
+	while left > 0 {
+		let f = *r.pick(&[3usize, 4, 5, 8]);
+		cbs.push(Cb { ops: vec![], frames: f });
+		left -= f as i64;
+	}
+	Scenario { ibs, cbs }
+}
+
 /// fixed histories: the F1 and F28 regressions and the minimal frozen / removal scenes
-fn fixed_scenarios() -> Vec<(&'static str, Scenario, bool)> {
+fn fixed_scenarios() -> Vec<(&'static str, Scenario, bool, bool)> {
 	let z = zero_tw;
 	let top = |id, persist| Op::AddTop { id, persist, fx: false, spatial: false };
 	let sub = |parent, id, persist| Op::AddSub { parent, id, persist, fx: false, spatial: false };
 	let play = |tr, sid, n| Op::Play { tr, sid, n, start: 0, st: Start::Imm };
 	let cb = |ops: Vec<Op>, frames| Cb { ops, frames };
+	let quiet = |n: usize, frames: usize| -> Vec<Cb> { (0..n).map(|_| Cb { ops: vec![], frames }).collect() };
+	let del = |frames: u64, dur_frames: u64| Tw { start: Start::Del(frames_ns(frames)), dur_ns: frames_ns(dur_frames), easing: Easing::Linear };
+	let seq = |parts: Vec<Vec<Cb>>| -> Vec<Cb> { parts.into_iter().flatten().collect() };
 	vec![
+		// --- directed: `resume(tween)` with a fade-in tween that carries its own start time.  The resume is immediate
+		//     (Resuming at once, the subtree runs on silently), the tween counts its own delay ONCE: fade over after d + D
+		(
+			"directed: plain track paused (zero fade), Paused, resume(Tween { Delayed(12 frames), 4 frames })",
+			Scenario {
+				ibs: 2,
+				cbs: seq(vec![
+					vec![cb(vec![top(0, false), Op::Play { tr: 0, sid: 0, n: 250, start: 0, st: Start::Imm }], 4), cb(vec![Op::Pause { tr: 0, tw: z() }], 4), cb(vec![], 4), cb(vec![Op::Resume { tr: 0, st: Start::Imm, tw: del(12, 4) }], 4)],
+					quiet(10, 4),
+				]),
+			},
+			false,
+			true,
+		),
+		(
+			"directed: spatial sub-track of a plain track paused (zero fade), Paused, resume(Tween { Delayed(8 frames), 0 })",
+			Scenario {
+				ibs: 1,
+				cbs: seq(vec![
+					vec![
+						cb(vec![top(0, false), Op::AddSub { parent: 0, id: 1, persist: false, fx: false, spatial: true }, Op::Play { tr: 1, sid: 0, n: 250, start: 0, st: Start::Imm }], 3),
+						cb(vec![Op::Pause { tr: 1, tw: z() }], 3),
+						cb(vec![], 3),
+						cb(vec![Op::Resume { tr: 1, st: Start::Imm, tw: del(8, 0) }], 3),
+					],
+					quiet(8, 3),
+				]),
+			},
+			false,
+			true,
+		),
+		(
+			"directed: spatial top track, 8-frame fade-out, resume(Tween { Delayed(16 frames), 6 frames, InPowi(2) }) while still Pausing",
+			Scenario {
+				ibs: 4,
+				cbs: seq(vec![
+					vec![
+						cb(vec![Op::AddTop { id: 0, persist: false, fx: false, spatial: true }, Op::Play { tr: 0, sid: 0, n: 250, start: 0, st: Start::Imm }], 4),
+						cb(vec![Op::Pause { tr: 0, tw: Tw { start: Start::Imm, dur_ns: frames_ns(8), easing: Easing::Linear } }], 4),
+						cb(vec![Op::Resume { tr: 0, st: Start::Imm, tw: Tw { start: Start::Del(frames_ns(16)), dur_ns: frames_ns(6), easing: Easing::InPowi(2) } }], 4),
+					],
+					quiet(12, 5),
+				]),
+			},
+			false,
+			true,
+		),
+		(
+			"directed: chain of three, middle track paused with a delayed fade-out, Paused, resume(Tween { ClockTime(clock 0, tick 2), 4 frames })",
+			Scenario {
+				ibs: 2,
+				cbs: seq(vec![
+					vec![
+						cb(vec![top(0, false), sub(0, 1, false), Op::AddSub { parent: 1, id: 2, persist: false, fx: false, spatial: true }, Op::Play { tr: 2, sid: 0, n: 250, start: 0, st: Start::Imm }, Op::ClockStart(0)], 4),
+						cb(vec![Op::Pause { tr: 1, tw: del(3, 2) }], 4),
+						cb(vec![], 4),
+						cb(vec![], 4),
+						cb(vec![Op::Resume { tr: 1, st: Start::Imm, tw: Tw { start: Start::Clk { clock: 0, ticks: 2, fr: 0.0 }, dur_ns: frames_ns(4), easing: Easing::Linear } }], 4),
+					],
+					quiet(8, 4),
+				]),
+			},
+			false,
+			true,
+		),
 		(
 			"F1 regression: pause; resume_at(ClockTime c); clock c dropped",
 			Scenario {
@@ -819,20 +1069,24 @@ fn fixed_scenarios() -> Vec<(&'static str, Scenario, bool)> {
 				],
 			},
 			false,
+			false,
 		),
 		(
 			"F28 regression (a): persisting track, sound played and handle dropped between two callbacks",
 			Scenario { ibs: 8, cbs: vec![cb(vec![top(0, true)], 4), cb(vec![play(0, 0, 10), Op::Drop { tr: 0 }], 4), cb(vec![], 4), cb(vec![], 4), cb(vec![], 4), cb(vec![], 4), cb(vec![], 4)] },
+			false,
 			false,
 		),
 		(
 			"F28 regression (b): child added and parent handle dropped between two callbacks",
 			Scenario { ibs: 8, cbs: vec![cb(vec![top(0, false)], 4), cb(vec![sub(0, 1, false), play(1, 0, 10), Op::Drop { tr: 0 }], 4), cb(vec![], 4), cb(vec![], 4), cb(vec![Op::Drop { tr: 1 }], 4), cb(vec![], 4), cb(vec![], 4)] },
 			false,
+			false,
 		),
 		(
 			"queued track dropped at once: plays one callback, removed at the one after",
 			Scenario { ibs: 8, cbs: vec![cb(vec![top(0, false), play(0, 0, 20), Op::Drop { tr: 0 }], 4), cb(vec![], 4), cb(vec![], 4)] },
+			false,
 			false,
 		),
 		(
@@ -853,6 +1107,7 @@ fn fixed_scenarios() -> Vec<(&'static str, Scenario, bool)> {
 				],
 			},
 			true,
+			false,
 		),
 	]
 }
@@ -874,18 +1129,22 @@ pub fn run(args: &Args) {
 		"From Coq Require Import ZArith List. Import ListNotations. Open Scope Z_scope.\nFrom KV Require Import Base.Corr C06.Run C03.Run C12.Run.",
 		"run",
 		25,
-		"one case = one real AudioManager (sample rate 1024, internal buffer size 1-8) with a tree of up to 4 sub-tracks of depth <= 3 (plain and spatial handles, persistence on/off, optional counting probe effect), up to 4 index-coded static sounds (start position, start delay immediate/delayed/clock), two real clocks (started, paused, dropped), driven through 5-10 callbacks of 1-8 frames with generated pause / resume / resume_at / set_volume / drop-track / drop-sound operations (fade tweens of 0, sub-frame, frame-multiple and arbitrary length, Linear/Powi easings, immediate/delayed/clock start); observables per callback: manager.num_sub_tracks(), for every live track handle state() (under catch_unwind) / num_sounds() / num_sub_tracks(), for every live sound handle state() / position(), every output frame (bit pattern); distinct = distinct case text; non-trivial = at least one pause/resume/drop operation",
+		"one case = one real AudioManager (sample rate 1024, internal buffer size 1-8) with a tree of up to 4 sub-tracks of depth <= 3 (plain and spatial handles, persistence on/off, optional counting probe effect), up to 4 index-coded static sounds (start position, start delay immediate/delayed/clock), two real clocks (started, paused, dropped), driven through 5-10 callbacks of 1-8 frames with generated pause / resume / resume_at / set_volume / drop-track / drop-sound operations (fade tweens of 0, sub-frame, frame-multiple and arbitrary length, Linear/Powi easings, immediate/delayed/clock start, also for the fade-in tween of resume(tween)); plus the line family (chain of 1-3 tracks, one sound, pause then resume(tween) with a delayed / clock / immediate tween start, up to 20 callbacks) and four directed resume(delayed tween) histories that run first; observables per callback: manager.num_sub_tracks(), for every live track handle state() (under catch_unwind) / num_sounds() / num_sub_tracks(), for every live sound handle state() / position(), every output frame (bit pattern); distinct = distinct case text; non-trivial = at least one pause/resume/drop operation",
 	);
-	let mut all: Vec<(String, Scenario, bool)> = fixed_scenarios().into_iter().map(|(a, b, c)| (a.to_string(), b, c)).collect();
+	let mut all: Vec<(String, Scenario, bool, bool)> = fixed_scenarios().into_iter().map(|(a, b, c, d)| (a.to_string(), b, c, d)).collect();
 	for i in 0..n {
 		let pure = i % 4 == 3;
-		all.push((if pure { "pure".into() } else { "random".into() }, gen_scenario(&mut rng, pure), pure));
+		all.push((if pure { "pure".into() } else { "random".into() }, gen_scenario(&mut rng, pure), pure, false));
+		// the line family on top of the others: resume(tween) with tweens that carry their own start time
+		if i % 4 == 1 {
+			all.push(("line".into(), gen_line(&mut rng), false, true));
+		}
 	}
-	for (name, sc, pure) in &all {
+	for (name, sc, pure, line) in &all {
 		let tr = run_scenario(sc);
 		let t = term(sc, &tr);
 		let nontrivial = sc.cbs.iter().any(|c| c.ops.iter().any(|o| matches!(o, Op::Pause { .. } | Op::Resume { .. } | Op::Drop { .. })));
-		let kind = if name == "pure" || name == "random" { name.as_str() } else { "fixed" };
+		let kind = if name == "pure" || name == "random" || name == "line" { name.as_str() } else { "fixed" };
 		s.case(kind, t.clone(), &tr.obs, if nontrivial { Some(key_of(&t)) } else { None });
 		for o in &tr.per_cb {
 			for (_, (st, _, _)) in &o.tracks {
@@ -895,7 +1154,7 @@ pub fn run(args: &Args) {
 			}
 		}
 		let desc = format!("{name}: ibs={} {:?}", sc.ibs, sc.cbs);
-		monitors(&mut s, &desc, sc, &tr, *pure);
+		monitors(&mut s, &desc, sc, &tr, *pure, *line);
 	}
 	s.finish();
 }
